@@ -30,7 +30,7 @@ fn proj_entry(e: &EntrySealedCommitted) -> J {
     let mut classes = ava_strings(e, Attribute::Class);
     classes.sort();
     let d = kvs::fnv(&kvs::canon(&dump_entry(e)));
-    json!({"id": name_of(e.get_uuid()), "live": liveness(e), "classes": classes, "attrs": attrs, "d": d})
+    json!({"id": name_of(e.get_uuid()), "m": if is_model(e.get_uuid()) {1} else {0}, "live": liveness(e), "classes": classes, "attrs": attrs, "d": d})
 }
 
 async fn proj_server(qs: &QueryServer, all: bool) -> J {
@@ -171,18 +171,28 @@ fn schema_class() -> EntryInitNew {
     ])
 }
 
-pub fn random_op(rng: &mut Rng) -> J {
+/// `live`: model entries currently live on A (biases the choice of targets only)
+pub fn random_op(rng: &mut Rng, live: &[u64], step: u64) -> J {
     let srv = if rng.chance(1, 2) { "A" } else { "B" };
-    let n = rng.range(1, NE);
+    let absent: Vec<u64> = (1..=NE).filter(|n| !live.contains(n)).collect();
+    let tgt = |rng: &mut Rng| -> u64 { if live.is_empty() || rng.chance(1, 8) { rng.range(1, NE) } else { *rng.pick(live) } };
+    let fresh = |rng: &mut Rng| -> u64 { if absent.is_empty() || rng.chance(1, 8) { rng.range(1, NE) } else { *rng.pick(&absent) } };
     let defect = *rng.pick(DEFECTS);
+    if step < 3 {
+        // seed the history with valid entries of the three built-in kinds on A, then replicate
+        return json!({"op":"create","srv":"A","n":step + 1,"kind":step,"defect":"valid","custom2":false});
+    }
+    if step == 3 {
+        return json!({"op":"repl","from":"A"});
+    }
     match rng.below(100) {
-        0..=27 => json!({"op":"create","srv":srv,"n":n,"kind":rng.below(4),"defect":defect,"custom2":rng.chance(1,2)}),
-        28..=54 => json!({"op":"modify","srv":srv,"n":n,"defect":defect,"kind":*rng.pick(&["desc","addposix","shell","dropposix","custom","purge"]),"batch":rng.chance(1,3)}),
-        55..=60 => json!({"op":"schema","srv":"A","what":*rng.pick(&["attr1","attr2","class"])}),
-        61..=66 => json!({"op":"split","n":n}),
-        67..=84 => json!({"op":"repl","from": srv}),
-        85..=92 => json!({"op":"recycle","srv":srv,"n":n}),
-        _ => json!({"op":"revive","srv":srv,"n":n}),
+        0..=21 => json!({"op":"create","srv":srv,"n":fresh(rng),"kind":rng.below(4),"defect":defect,"custom2":rng.chance(1,2)}),
+        22..=54 => json!({"op":"modify","srv":srv,"n":tgt(rng),"defect":defect,"kind":*rng.pick(&["desc","addposix","shell","dropposix","custom","purge"]),"batch":rng.chance(1,3)}),
+        55..=62 => json!({"op":"schema","srv":"A","what":*rng.pick(&["attr1","attr2","class"])}),
+        63..=69 => json!({"op":"split","n":tgt(rng)}),
+        70..=86 => json!({"op":"repl","from": srv}),
+        87..=93 => json!({"op":"recycle","srv":srv,"n":tgt(rng)}),
+        _ => json!({"op":"revive","srv":srv,"n":rng.range(1, NE)}),
     }
 }
 
@@ -206,13 +216,65 @@ fn rc<T>(r: &Result<T, OperationError>) -> (String, String) {
 
 async fn write_op(qs: &QueryServer, at: std::time::Duration, f: impl FnOnce(&mut QueryServerWriteTransaction<'_>) -> Result<(), OperationError>) -> (String, String) {
     let mut w = qs.write(at).await.expect("write");
-    let r = f(&mut w);
-    match r {
-        Ok(()) => rc(&w.commit()),
-        Err(e) => {
+    // a panic inside kanidm code on a request is data: the transaction is abandoned
+    match catch(|| f(&mut w)) {
+        Ok(Ok(())) => rc(&w.commit()),
+        Ok(Err(e)) => {
             drop(w);
             rc::<()>(&Err(e))
         }
+        Err(p) => {
+            drop(w);
+            ("panic".into(), p.chars().take(90).collect())
+        }
+    }
+}
+
+/// Does the request's defect label apply as given?  (the target must exist and be live for a modify; the custom
+/// class / attributes must already be in the schema of the server for requests that use them)
+async fn label(p: &Pair, op: &J) -> (bool, String) {
+    let srv = op["srv"].as_str().unwrap_or("A");
+    let n = op["n"].as_u64().unwrap_or(1);
+    let mut defect = op["defect"].as_str().unwrap_or("valid").to_string();
+    let mut r = p.srv(srv).read().await.expect("read");
+    let (has_class, has_a2) = {
+        let s = r.get_schema();
+        (s.get_classes().contains_key("kvclass1"), s.get_attributes().contains_key(&Attribute::from("kvattr2")))
+    };
+    let target = r.internal_search_uuid(uuid_e(n)).ok();
+    match op["op"].as_str().unwrap_or("") {
+        "create" => {
+            if op["kind"].as_u64().unwrap_or(0) % 4 == 3 && defect != "unknown_class" {
+                if !has_class {
+                    defect = "unknown_class".into();
+                } else if op["custom2"].as_bool().unwrap_or(false) && !has_a2 && defect == "valid" {
+                    defect = "unknown_attr".into();
+                }
+            }
+            // an entry with this uuid already stored (any liveness) is refused for another reason
+            let exists = search_all(&mut r).iter().any(|e| e.get_uuid() == uuid_e(n));
+            (!exists, defect)
+        }
+        "modify" => {
+            let kind = op["kind"].as_str().unwrap_or("desc");
+            let mut applies = target.is_some();
+            if let Some(t) = &target {
+                let posix = t.attribute_equality(Attribute::Class, &EntryClass::PosixAccount.into());
+                let account = t.attribute_equality(Attribute::Class, &EntryClass::Account.into());
+                let custom = t.attribute_equality(Attribute::Class, &PartialValue::new_iutf8("kvclass1"));
+                if defect == "valid" {
+                    // the "valid" edits are only valid on the entry kinds they are meant for
+                    applies = match kind {
+                        "addposix" => account && !posix,
+                        "shell" | "dropposix" => posix,
+                        "custom" => custom && has_a2,
+                        _ => true,
+                    };
+                }
+            }
+            (applies, defect)
+        }
+        _ => (true, defect),
     }
 }
 
@@ -306,30 +368,40 @@ pub fn run(o: &Opts) -> i32 {
     let replay: Option<Vec<J>> = o.get("replay").map(read_ndjson);
     let rt = runtime();
     rt.block_on(async {
-        let mut script: Vec<(u64, Vec<J>)> = Vec::new();
+        let mut script: Vec<(u64, Option<Vec<J>>)> = Vec::new();
         if let Some(lines) = replay {
             for l in lines {
                 if l["a"] == "reset" {
-                    script.push((l["h"].as_u64().unwrap_or(0), Vec::new()));
+                    script.push((l["h"].as_u64().unwrap_or(0), Some(Vec::new())));
                 } else if l["a"] == "op" {
-                    if let Some(last) = script.last_mut() {
-                        last.1.push(l["op"].clone());
+                    if let Some((_, Some(v))) = script.last_mut() {
+                        v.push(l["op"].clone());
                     }
                 }
             }
         } else {
             for hi in 0..nh {
-                let mut rng = Rng::new(seed.wrapping_mul(7_000_003).wrapping_add(hi));
-                script.push((hi, (0..len).map(|_| random_op(&mut rng)).collect()));
+                script.push((hi, None));
             }
         }
-        for (hi, ops) in script {
+        for (hi, fixed) in script {
+            let mut rng = Rng::new(seed.wrapping_mul(7_000_003).wrapping_add(hi));
             let mut p = new_pair().await;
             tr.emit(&json!({"a":"reset","h":hi,"res":"ok","st":state(&p, true).await,"schema":schemas(&p).await}));
-            for op in ops {
+            let count = fixed.as_ref().map(|v| v.len() as u64).unwrap_or(len);
+            let mut live: Vec<u64> = Vec::new();
+            for step in 0..count {
+                let op = match &fixed {
+                    Some(v) => v[step as usize].clone(),
+                    None => random_op(&mut rng, &live, step),
+                };
+                let (applies, defect) = label(&p, &op).await;
                 let (res, err, sch) = apply(&mut p, &op).await;
                 // the whole database (built-in entries too) is re-validated whenever the schema may have changed
-                let mut line = json!({"a":"op","op":op,"res":res,"err":err,"st":state(&p, sch).await});
+                let st = state(&p, sch).await;
+                live = st["A"]["ents"].as_array().map(|a| a.iter().filter(|e| e["m"] == 1 && e["live"] == "live")
+                    .filter_map(|e| e["id"].as_str().and_then(|x| x[1..].parse::<u64>().ok())).filter(|n| *n <= NE).collect()).unwrap_or_default();
+                let mut line = json!({"a":"op","op":op,"applies": if applies {1} else {0},"defect":defect,"res":res,"err":err,"st":st});
                 if sch {
                     line["schema"] = schemas(&p).await;
                 }
